@@ -40,7 +40,7 @@ Qed.
 
 Lemma merge_ok_f1 H0 i a ks : f1_okE (RN i a ks) -> merge_ok H0 a.
 Proof.
-  intros (h0 & tbl0 & Hk). revert Hk. cbn [f1_ok]. intros [(nm & ->)|[(bk & off & nm & p & po & rest & -> & _)|[(off & w & v & -> & _)|[(off & ->)|[(off & -> & _)|[(off & nm & p & po & c & co & d & -> & _ & _)|[(off & d & -> & Hc & _)|(lk & off & nm & p & po & rest & -> & _)]]]]]]];
+  intros (h0 & tbl0 & Hk). revert Hk. cbn [f1_ok]. intros [(nm & ->)|[(bk & off & nm & p & po & rest & -> & _)|[(off & w & v & -> & _)|[(off & ->)|[(off & -> & _)|[(off & nm & p & po & c & co & d & -> & _ & _)|[(off & d & -> & Hc & _)|[(lk & off & nm & p & po & rest & -> & _)|(off & bs & -> & _)]]]]]]]];
     try (do 3 eexists; split; [reflexivity|right; reflexivity]).
   - destruct bk; (do 3 eexists; split; [reflexivity|right; reflexivity]).
   - destruct w; (do 3 eexists; split; [reflexivity|right; reflexivity]).
@@ -52,7 +52,7 @@ Qed.
 Lemma f1_okE_live i a ks : f1_okE (RN i a ks) -> y_op a <> opFreed.
 Proof.
   intros (h0 & tbl0 & Hk1). cbn [f1_ok] in Hk1.
-  destruct Hk1 as [(nm & ->)|[(bk0 & ? & ? & ? & ? & ? & -> & _)|[(? & w0 & ? & -> & _)|[(? & ->)|[(? & -> & _)|[(? & ? & ? & ? & ? & ? & ? & -> & _ & _)|[(? & d & -> & Hc & _)|(lk0 & ? & ? & ? & ? & ? & -> & _)]]]]]]]; try discriminate; try (destruct bk0; discriminate); try (destruct w0; discriminate); try (destruct lk0; discriminate).
+  destruct Hk1 as [(nm & ->)|[(bk0 & ? & ? & ? & ? & ? & -> & _)|[(? & w0 & ? & -> & _)|[(? & ->)|[(? & -> & _)|[(? & ? & ? & ? & ? & ? & ? & -> & _ & _)|[(? & d & -> & Hc & _)|[(lk0 & ? & ? & ? & ? & ? & -> & _)|(? & ? & -> & _)]]]]]]]]; try discriminate; try (destruct bk0; discriminate); try (destruct w0; discriminate); try (destruct lk0; discriminate).
   cbn [cst_pay y_op]. destruct (is_constb_cases _ Hc) as [E|[E|[E|[E|[E|[E|E]]]]]]; rewrite E; discriminate.
 Qed.
 
